@@ -14,6 +14,7 @@ import (
 	"fmt"
 	"io"
 	"io/ioutil"
+	"net"
 	"net/http"
 	"net/http/httptest"
 	"sync"
@@ -26,6 +27,7 @@ import (
 	"git.torproject.org/pluggable-transports/snowflake.git/v2/common/util"
 	vh "git.torproject.org/pluggable-transports/snowflake.git/v2/common/zzverif"
 	"github.com/pion/ice/v2"
+	"github.com/pion/stun"
 	"github.com/pion/webrtc/v3"
 )
 
@@ -298,5 +300,94 @@ func TestVerifC20Client(t *testing.T) {
 		}
 		srv.Close()
 	}
+	// The background NAT type check over the configured ICE servers (go updateNATType(iceServers, broker), as in
+	// NewSnowflakeClient) beside a dialer that was given the same server list and uses it for every new peer:
+	// two loopback STUN responders, the first answering plain binding requests only, the second also advertising
+	// OTHER-ADDRESS (RFC 5780) so that the check moves on from the first to the second server.
+	if plain, full := c20STUN(false), c20STUN(true); plain != "" && full != "" {
+		iceServers := parseIceServers([]string{"stun:" + plain, "stun:" + full})
+		st := &c20Answerer{}
+		bc := &BrokerChannel{Rendezvous: st, keepLocalAddresses: true, natType: nat.NATUnknown}
+		done := make(chan struct{})
+		go func() { defer close(done); updateNATType(iceServers, bc) }()
+		peers, err := NewPeers(NewWebRTCDialer(bc, iceServers, 1))
+		if err == nil {
+			peers.bytesLogger = newBytesSyncLogger() // as Transport.Dial does
+			n := 0
+			go func() { // the data path: takes every collected peer and lets it go
+				for {
+					pe := peers.Pop()
+					if pe == nil {
+						return
+					}
+					pe.Close()
+				}
+			}()
+			for k := 0; k < 40; k++ {
+				if _, err := peers.Collect(); err == nil {
+					n++
+				}
+				time.Sleep(5 * time.Millisecond)
+				select {
+				case <-done:
+					if k >= 5 {
+						k = 40
+					}
+				default:
+				}
+			}
+			select {
+			case <-done:
+			case <-time.After(30 * time.Second):
+				r.Note("client NAT check over two loopback STUN servers did not finish within 30 s")
+			}
+			peers.End()
+			bc.lock.Lock()
+			nt := bc.natType
+			bc.lock.Unlock()
+			first := ""
+			if len(iceServers) > 0 && len(iceServers[0].URLs) > 0 {
+				first = iceServers[0].URLs[0]
+			}
+			line := fmt.Sprintf("NAT check over stun:%s (plain) and stun:%s (RFC 5780) beside %d Collects with the same server list: NAT type %q", plain, full, n, nt)
+			r.Case("client/nat-check-beside-collect", line, true)
+			if first != "stun:"+plain {
+				r.OracleFail("c20-client-ice-servers-reordered", line, "first server is now "+first, "the dialer's ICE server list is not changed behind its back")
+			}
+		}
+		st.close()
+	}
 	_ = errors.New
+}
+
+// c20STUN starts a minimal STUN responder on the loopback interface; withOther: it also advertises OTHER-ADDRESS.
+func c20STUN(withOther bool) string {
+	conn, err := net.ListenUDP("udp4", &net.UDPAddr{IP: net.IPv4(127, 0, 0, 1)})
+	if err != nil {
+		return ""
+	}
+	self := conn.LocalAddr().(*net.UDPAddr)
+	go func() {
+		defer conn.Close()
+		buf := make([]byte, 1500)
+		for {
+			conn.SetReadDeadline(time.Now().Add(90 * time.Second))
+			n, from, err := conn.ReadFromUDP(buf)
+			if err != nil {
+				return
+			}
+			req := &stun.Message{Raw: append([]byte{}, buf[:n]...)}
+			if req.Decode() != nil {
+				continue
+			}
+			setters := []stun.Setter{stun.NewTransactionIDSetter(req.TransactionID), stun.BindingSuccess, &stun.XORMappedAddress{IP: from.IP, Port: from.Port}}
+			if withOther {
+				setters = append(setters, &stun.OtherAddress{IP: self.IP, Port: self.Port})
+			}
+			if resp, err := stun.Build(setters...); err == nil {
+				conn.WriteToUDP(resp.Raw, from)
+			}
+		}
+	}()
+	return self.String()
 }
